@@ -710,7 +710,7 @@ PLANS = {
     },
     'C06': {
         'level': 'proof', 'coq': 'Properties_C06',
-        'rule': 'all ordered pairs of every small posit/cfloat/fixpnt/integer configuration x {==,!=,<,<=,>,>=}; ++/-- on every encoding; '
+        'rule': 'all ordered pairs of every small posit/cfloat/fixpnt/integer/lns configuration x {==,!=,<,<=,>,>=}; ++/-- on every encoding; '
                 'std::numeric_limits<T>::max / lowest / min / epsilon / denorm_min of every configuration compared with the extremes and spacing of the '
                 'modelled value set (LimitsModel.v); sampled for large configurations. non-trivial = all; distinct = distinct lines',
         'assumptions': [],
@@ -718,6 +718,7 @@ PLANS = {
                    [exh('cfloat_cmp_exh%d' % k, 'cfloat_s%d' % k, 'cmp') for k in range(4)] +
                    [rnd('cfloat_cmp_rnd%d' % k, 'cfloat_s%d' % k, 'cmp', 800, 15000, shards=4) for k in (10, 11, 12)] +
                    [exh('fixpnt_cmp_exh', 'fixpnt_small', 'cmp'), rnd('fixpnt_cmp_rnd', 'fixpnt_large', 'cmp', 600, 10000, shards=16),
-                    exh('integer_cmp_exh', 'integer_small', 'cmp'), rnd('integer_cmp_rnd', 'integer_large', 'cmp', 600, 10000, shards=16)],
+                    exh('integer_cmp_exh', 'integer_small', 'cmp'), rnd('integer_cmp_rnd', 'integer_large', 'cmp', 600, 10000, shards=16),
+                    exh('lns_cmp_exh', 'lns_small', 'cmp'), rnd('lns_cmp_rnd', 'lns_large', 'cmp', 600, 10000, shards=16)],
     },
 }
